@@ -4,7 +4,7 @@
 set -u
 ID=$1; OUT=$2
 WT=/tmp/sv_$ID
-export CARGO_NET_OFFLINE=true CARGO_TARGET_DIR=/tmp/sv_target
+export CARGO_NET_OFFLINE=true CARGO_TARGET_DIR=${SV_TARGET:-/tmp/sv_target}
 rm -rf $WT; git -C /repo worktree prune; git -C /repo worktree add -q --detach $WT HEAD || exit 9
 cd $WT
 DEMO=$OUT/seed_demo.rs; [ -f "$DEMO" ] || DEMO=$(ls $OUT/*.rs | head -1)
